@@ -492,12 +492,10 @@ func normalizeValue(
 		return normalizeMapValue(opts, ctx, v)
 	case reflect.Struct:
 		if v, ok := tryTConfig(v); ok {
+			// copy the embedded config: normalization must not re-parent or
+			// otherwise modify a Config owned by the caller.
 			c := v.Addr().Interface().(*Config)
-			ret := cfgSub{c}
-			if ret.Context().parent != ctx.parent {
-				ret.SetContext(ctx)
-			}
-			return ret, nil
+			return cfgSub{c}.cpy(ctx), nil
 		}
 
 		return normalizeStructValue(opts, ctx, v)
